@@ -342,8 +342,9 @@ def process_stage(run, count):
 
 def sequences_stage(run, want):
     """Behaviours of the state machine replayed on live objects: random walks (and exhaustive depth 2 in thorough)."""
-    for i, kind in enumerate(ALL_KINDS):
-        mc.sequences(run, kind, q(run, 6, 8), want, walks=q(run, 150, 1000), seed=run.seed + i)
+    kinds = ALL_KINDS if run.tier == "thorough" else [ALL_KINDS[(run.seed + 1) % 5], ALL_KINDS[(run.seed + 3) % 5]]
+    for i, kind in enumerate(kinds):
+        mc.sequences(run, kind, q(run, 6, 8), want, walks=q(run, 200, 1000), seed=run.seed + i)
     # exhaustive: depth 1 (quick) / depth 2 (thorough: 21 757 states, every behaviour replayed) for one kind, chosen by the seed
     mc.sequences(run, ALL_KINDS[run.seed % 5], q(run, 1, 2), want)
 
@@ -403,7 +404,7 @@ def plan_C17(run):
 
 def plan_C18(run):
     sequences_stage(run, {"C18"})
-    n = q(run, 150, 3000)
+    n = q(run, 100, 3000)
     campaign(run, "object-campaign", {"C18"}, lambda s, r: drivers.object_campaign(s, r, n))
     run.require_classes(["op=cmp", "op=ordinal", "op=sorted", "raise:ValueError"], "object-campaign")
     return {"rule": "comparisons of pairs from a grid with many equal ordinals and random floats, six operators, foreign operands "
@@ -427,7 +428,7 @@ def plan_C19(run):
 
 def plan_C20(run):
     sequences_stage(run, {"C20"})
-    n = q(run, 120, 2500)
+    n = q(run, 80, 2500)
     campaign(run, "object-campaign", {"C20"}, lambda s, r: drivers.object_campaign(s, r, n))
     campaign(run, "twin-leagues", {"C20"}, lambda s, r: drivers.restore_groups(s, r, n))
     campaign(run, "leagues", {"C20"}, lambda s, r: drivers.leagues(s, r, q(run, 15, 80), q(run, 10, 40), q(run, 40, 300), twin=True, prop="C20"))
